@@ -191,7 +191,9 @@ func (fc *fnCtx) instr(in ssa.Instruction) {
 		fc.set(x, fc.slice(x))
 	case *ssa.Store:
 		p := fc.v(x.Addr)
-		fc.oblige("nil", "*"+fc.addrText(x.Addr)+"=", fmt.Sprintf("(not (= %s 0))", p.t[0]), x.Pos())
+		if !derivedAddr(x.Addr) {
+			fc.oblige("nil", "*"+fc.addrText(x.Addr)+"=", fmt.Sprintf("(not (= %s 0))", p.t[0]), x.Pos())
+		}
 		fc.checkGuarded(x.Addr, true, x.Pos())
 		fc.store(x.Val.Type(), p.t[0], p.t[1], fc.v(x.Val))
 	case *ssa.Extract:
@@ -355,7 +357,9 @@ func (fc *fnCtx) named(base string, v *val) *val {
 	return out
 }
 
-func isSimple(t string) bool { return !strings.ContainsAny(t, " (") || (strings.HasPrefix(t, "(- ") && strings.Count(t, "(") == 1) || strings.HasPrefix(t, "(_ bv") }
+func isSimple(t string) bool {
+	return !strings.ContainsAny(t, " (") || (strings.HasPrefix(t, "(- ") && strings.Count(t, "(") == 1) || strings.HasPrefix(t, "(_ bv")
+}
 
 func (fc *fnCtx) ite(c string, a, b *val) *val {
 	if a.k != b.k {
@@ -584,7 +588,9 @@ func (fc *fnCtx) unop(x *ssa.UnOp) *val {
 	a := fc.v(x.X)
 	switch x.Op {
 	case token.MUL: // load
-		fc.oblige("nil", "*"+fc.addrText(x.X), fmt.Sprintf("(not (= %s 0))", a.t[0]), x.Pos())
+		if !derivedAddr(x.X) {
+			fc.oblige("nil", "*"+fc.addrText(x.X), fmt.Sprintf("(not (= %s 0))", a.t[0]), x.Pos())
+		}
 		fc.checkGuarded(x.X, false, x.Pos())
 		v := fc.load(x.Type(), a.t[0], a.t[1])
 		if gl, ok := x.X.(*ssa.Global); ok && types.IsInterface(gl.Type().(*types.Pointer).Elem()) && strings.HasPrefix(gl.Name(), "Err") {
@@ -727,7 +733,9 @@ func (fc *fnCtx) slice(x *ssa.Slice) *val {
 // ---------------------------------------------------------------------------------------
 // memory
 
-func (fc *fnCtx) load(t types.Type, ref, off string) *val { return fc.loadH(fc.curH, t, ref, off, fc.curR) }
+func (fc *fnCtx) load(t types.Type, ref, off string) *val {
+	return fc.loadH(fc.curH, t, ref, off, fc.curR)
+}
 
 func (fc *fnCtx) loadH(h heap, t types.Type, ref, off string, guard string) *val {
 	g := fc.g
@@ -899,6 +907,19 @@ func (fc *fnCtx) alloc(tag string) string {
 // and the immutable string constants.
 func (fc *fnCtx) havocHeap(tag, keep string, keepGhost bool) {
 	g := fc.g
+	if keep == "" {
+		// remember the enclosing loops: their frame cannot hold, the next pass havocs everything at their headers
+		for c := fc; c != nil; c = c.parent {
+			if c.curB == nil {
+				continue
+			}
+			for h := range c.loopOrd {
+				if loopBlocks(h)[c.curB] {
+					g.loopHavocSeen[h] = true
+				}
+			}
+		}
+	}
 	fresh := g.freshHeap(tag)
 	k := fmt.Sprintf("(< r (- %d))", strRefBase)
 	if keep != "" {
@@ -922,4 +943,13 @@ func (fc *fnCtx) havocHeap(tag, keep string, keepGhost bool) {
 		}
 	}
 	fc.curAC = ac
+}
+
+// derivedAddr: addresses whose non-nilness was already an obligation (field/element addresses) or holds by construction.
+func derivedAddr(a ssa.Value) bool {
+	switch a.(type) {
+	case *ssa.FieldAddr, *ssa.IndexAddr, *ssa.Alloc, *ssa.Global:
+		return true
+	}
+	return false
 }
